@@ -659,7 +659,8 @@ func TestC16_em_monotone_mixture(t *testing.T) {
 		if err != nil {
 			t.Fatalf("%s: constructor %v", c.Desc(), err)
 		}
-		pool, stop := drawPool(t, c)
+		// EM runs sequentially here: pooled execution (and the error a pool can lose, C17) is C17's subject
+		pool, stop := threadpool.Nil(), func() {}
 		defer stop()
 		p, to := guarded(func() {
 			if discrete {
@@ -792,7 +793,8 @@ func TestC16_em_monotone_hmm(t *testing.T) {
 		if err != nil {
 			t.Fatalf("%s: constructor %v", c.Desc(), err)
 		}
-		pool, stop := drawPool(t, c)
+		// EM runs sequentially here: pooled execution (and the error a pool can lose, C17) is C17's subject
+		pool, stop := threadpool.Nil(), func() {}
 		defer stop()
 		p, to := guarded(func() { err = est.EstimateOnData(xs, nil, pool) })
 		if to {
